@@ -5,6 +5,16 @@ V = os.path.dirname(os.path.dirname(os.path.abspath(__file__)))
 props = [json.loads(l) for l in open(os.path.join(V, "properties.jsonl"))]
 
 CLAIMS = {
+ "C01": dict(
+   text="Lean 4 theorem C01_partial over the hand-written model of line_to_cmds, parse_line, the seven expansion passes, env draining, the & test, pipe splitting, Command::from_tokens and tokens_to_redirections: for every environment and every list of single- or double-quoted arguments (any length, any characters the style can express, empty strings) after a plain program word, alone or before ; && ||, the first pipeline is planned as one stage whose argv is exactly those strings, with no redirection, stdin source, background flag or environment. The escaped style is refuted by kernel-checked witnesses and listed as 8 known-finding classes. Model tied to /repo by exhaustive in-process differential streams over the 29-symbol metacharacter alphabet (all texts <= 2 in every style/position/context, <= 3 as last argument; thorough one longer) and a sample through the real binary with an argv-recording helper.",
+   note="Trusted: Lean kernel; the hand-written model (validated on generated inputs only); execve/CString conversion not modelled (NUL bytes excluded); the `| q` context and the escaped style are outside the proved domain (escaped style: open findings KF-C01-esc-*).",
+   technique="Lean 4 proof (scanner invariants by induction over the line, pass-is-identity lemmas composed along do_expansion, planning lemmas) + model/implementation correspondence check",
+   design="DESIGN.md §6 C01"),
+ "C05": dict(
+   text="In the Lean model every reachable Rust panic site is an explicit Outcome.panic and every rewrite-until-fixpoint loop is fuelled; theorems: planning a line (tokenizer, all expansion passes, draining, splitting, redirections) never panics for any line, environment, oracle and fuel (C05_plan_no_panic); the calculator never panics (C05_calc_no_panic); every planned command has a first token so dispatch cannot index an empty list (C05_no_empty_command, C05_head_no_panic); every builtin name is dispatched (over constants regenerated from the source). Tied to /repo by an exhaustive sweep of all strings <= 4 (thorough 5) over the 14-symbol alphabet through line_to_cmds / parse_line / from_line / the run_pipeline head in-process under catch_unwind and a fork watchdog, plus random lines through every single pass; five crash/hang defects found this way were repaired by fix: commits.",
+   note="Trusted: Lean kernel; hand-written model; termination is proved only for the passes that are total by construction (substitution loops are fuelled; a command whose output again contains $(...) can loop - finding of C11); highlighter, completion boundary search and pty key sequences are not yet in the model (exercised by C20/C07 streams when built).",
+   technique="Lean 4 proof of panic-freedom (mutual induction over the fuelled planner) + exhaustive short-string differential sweep",
+   design="DESIGN.md §6 C05"),
  "C03": dict(
    text="Lean 4 theorems over a hand-written model of line_to_cmds and the run_command_line loop: for every program whose segments are pipelines (any text in which list operators are quoted/escaped), every run_proc and every shell state, list splitting recovers exactly the pipelines and operators and the loop executes exactly the reference semantics (trace, statuses, final $?). The model is tied to /repo on every run by in-process differential streams (all 18 662 operator/status programs up to length 6, random programs up to 12, exhaustive short strings) and by the real binary via -c and script files.",
    note="Trusted: Lean kernel; hand-written model (validated by correspondence only on generated inputs); run_proc is a parameter of the theorem (its own behaviour is the business of other properties); trailing `&` and `#` comments inside a segment are outside the proved domain; process scheduling is not modelled.",
